@@ -63,11 +63,13 @@ def expectations():
     for fn in sorted(os.listdir(os.path.join(VERIF, "selftest", "refactor_corpus"))):
         if fn.endswith(".diff"):
             exp[fn[:-5]] = ("silent", PROPS)
+    # addition_corpus: substantial new public API that keeps the property (P*: by sub-agents; K*: corrected twins of added-API
+    # seeds); a new mechanism is not verified by rules written for the old one - the who-may inventories report it for audit.
     # repaired seeds: behaviour-preserving, but many of them bring a new mechanism (a cache, a second data structure, another
     # algorithm) whose equivalence is a semantic argument; those listed in stress_corpus/EXPECTED_SILENT must stay silent,
     # the others are reported for information only
-    sc = os.path.join(VERIF, "selftest", "stress_corpus")
-    if os.path.isdir(sc):
+    for sc in (os.path.join(VERIF, "selftest", "stress_corpus"), os.path.join(VERIF, "selftest", "addition_corpus")):
+      if os.path.isdir(sc):
         keep = set(open(os.path.join(sc, "EXPECTED_SILENT")).read().split()) if os.path.exists(os.path.join(sc, "EXPECTED_SILENT")) else set()
         for fn in sorted(os.listdir(sc)):
             if fn.endswith(".diff"):
